@@ -272,7 +272,7 @@ func run(r *Rng, tier string, n int) {
 				f := v.Field(i)
 				tag := v.Type().Field(i).Tag.Get("dns")
 				if v.Type().Field(i).Name == "Hdr" || !f.CanSet() || (f.Kind() != reflect.Slice && f.Kind() != reflect.String) ||
-					strings.Contains(tag, "domain-name") || strings.Contains(tag, "size-") || v.Type().Field(i).Name == "GatewayAddr" {
+					strings.Contains(tag, "domain-name") || strings.Contains(tag, "size-") || strings.Contains(tag, "host") || v.Type().Field(i).Name == "GatewayAddr" {
 					continue
 				}
 				c := dns.Copy(rr)
